@@ -104,11 +104,33 @@ class MatchesOracle:
     """inner-matcher calls (X::matches / param_matches) answer `inner`; null tests answer `nonnull`;
     dereferencing a null pointer is an error"""
 
-    def __init__(self, inner, nonnull=True, per_param=None):
+    def __init__(self, inner, nonnull=True, per_param=None, tu=None, depth=3, params=None):
         self.inner = inner
         self.nonnull = nonnull
         self.per_param = per_param
         self.derefs_of_null = 0
+        self.tu = tu
+        self.depth = depth
+        self.params = params
+
+    def _descend(self, t, it):
+        """a library helper the guard was factored into (is_null, ...) is interpreted from its own body, for the
+        instantiation the call resolves to"""
+        if self.tu is None or self.depth <= 0 or t[0] != "call":
+            return None
+        callee = self.tu.fns.get(t[1])
+        if callee is None or not callee.has_body or not callee.is_lib:
+            return None
+        vals = {}
+        for i, a in enumerate(t[3]):
+            try:
+                vals[i] = it.ev(a)
+            except Unknown:
+                vals[i] = ("obj", "arg")
+        child = MatchesOracle(self.inner, self.nonnull, self.per_param, self.tu, self.depth - 1, vals)
+        r = ret_value(callee, child)
+        self.derefs_of_null += child.derefs_of_null
+        return (r,)
 
     def __call__(self, kind, t, it):
         if kind == "call":
@@ -128,6 +150,19 @@ class MatchesOracle:
             if n in ("std::operator!=", "std::operator=="):
                 eq = not self.nonnull
                 return eq if n.endswith("==") else not eq
+            if t[0] == "opcall" and t[3] in ("==", "!=") and "['null']" in str(t[4]):
+                # a user-provided comparison of the pointer-like value with nullptr (possibly through a conversion)
+                eq = not self.nonnull
+                return eq if t[3] == "==" else not eq
+            if t[0] == "opcall" and t[3] == "*" and len(t[4]) == 1:
+                # a user-provided dereference operator
+                v = it.ev(t[4][0])
+                if v is None or not self.nonnull:
+                    self.derefs_of_null += 1
+                return ("obj", "pointee")
+            sub = self._descend(t, it)
+            if sub is not None:
+                return sub[0]
             if n.startswith("std::ref") or n.startswith("std::forward") or n.startswith("std::mem_fn") or \
                     n.startswith("std::_Mem_fn") or n == "std::unique_ptr::operator*" or n == "trompeloeil::ignore":
                 return ("obj", "x")
@@ -135,6 +170,10 @@ class MatchesOracle:
                 return ("obj", "tmp")
             raise Unknown("call " + n)
         if kind == "param":
+            if self.params is not None:
+                if t[1] in self.params:
+                    return self.params[t[1]]
+                raise Unknown("parameter %s of a helper" % t[2])
             return ("ptr", ("obj", "pointee")) if self.nonnull else None
         if kind in ("member", "this"):
             return ("obj", "m")
@@ -151,7 +190,7 @@ def c10d(ctx, tu):
             bad = None
             for nonnull in (True, False):
                 for inner in (True, False):
-                    o = MatchesOracle(inner, nonnull)
+                    o = MatchesOracle(inner, nonnull, tu=tu)
                     r = bool(ret_value(fn, o))
                     if r != (nonnull and inner):
                         bad = "pointer %s, pointee %s -> %s" % ("non-null" if nonnull else "null",
